@@ -990,6 +990,24 @@ def align_space():
                                "method": method}
 
 
+def scaled(case, k):
+    """the same case in other units: every coordinate and the tolerance multiplied by 2**k (exact).  The statement is
+    scale free; an absolute epsilon in the code is not (round-2 seeded change C09-4: `<= tolerance or np.isclose(...)`
+    links points that are out of tolerance once the axis is in nanoseconds-written-as-seconds)."""
+    f = F(2) ** k
+    c = json.loads(json.dumps(case))
+    c["tol"] = str(F(c["tol"]) * f)
+    if c["kind"] == "align":
+        c["x"] = str(F(c["x"]) * f)
+        c["target"] = [str(F(t) * f) for t in c["target"]]
+    elif c["kind"] == "axes":
+        c["axes"] = [[str(F(x) * f) for x in ax] for ax in c["axes"]]
+    else:
+        for d in c["datasets"]:
+            d["axis"] = [str(F(x) * f) for x in d["axis"]]
+    return c
+
+
 def random_align(rng):
     n = rng.randint(0, 6)
     target = [F(rng.randint(0, 24), 4) for _ in range(n)]
@@ -1057,6 +1075,10 @@ def run(ck):
         rng.shuffle(orders)
         larger += orders[: (6 if nd <= 3 else 4)]
     compare_providers(ck, larger, "random-larger", e2e_every=ck.n(6, 12), result_every=ck.n(5, 10))
+    # the same kinds of cases in other units (2^-30 ~ 1e-9 and 2^20)
+    compare_align(ck, [scaled(random_align(rng), k) for k in (-30, 20) for _ in range(ck.n(400, 4000))], "align-scaled")
+    compare_providers(ck, [scaled(c, k) for k in (-30, 20) for c in rng.sample(larger, min(len(larger), ck.n(60, 600)))],
+                      "random-larger-scaled", e2e_every=ck.n(20, 40), result_every=ck.n(10, 20))
     # non-increasing dataset axes (decreasing / shuffled): alignment tables, get_result and e2e (fix D27)
     uns = []
     for _ in range(ck.n(260, 2000)):
